@@ -167,6 +167,18 @@ CLAIMED = {
         "CLI's handling of the error are NOT covered; the round-5 seeded change in the serde scanner is outside. Two genuine defects were repaired in /repo (unknown crates "
         "declared as `*`; dependency order, see C12).",
    ref="DESIGN.md section 0.7, C15"),
+ "C16": dict(
+   cat="model_checking", tech="enum-level symbolic execution of rustc MIR + SMT (z3): the verdict loop of run_tests over symbolic tests / markers / outcomes; frame condition (reads and writes of the test-mode state) over the MIR of the whole crate",
+   text="Solver-based, bounded, TWO mechanisms of the property: (a) X-run_tests: the verdict loop of `incan test` is executed from the whole-crate MIR from the point where the "
+        "filtered test list exists - 0..=2 (thorough 3) tests with 0..=2 (3) markers of every kind, every outcome of run_single_test (uninterpreted), --exitfirst symbolic: "
+        "on every feasible path a @skip test is never run, every other test is run exactly once and in order unless --exitfirst stopped the run after a failure, @xfail "
+        "inverts the verdict, and the exit status is a failure exactly when an executed test failed without @xfail or passed with it; (b) X-test_harness: the test-mode flag "
+        "and the selected test function that the runner sets on the code generator are actually READ by code generation (a frame condition over every function of the crate) - "
+        "on the unchanged tree they were read by nothing: no #[test] was ever generated and every test was reported as passed; shown natively (`replay testrun`: the public "
+        "run_tests, cargo in the generated project) and repaired in /repo.",
+   note="Kernel-only: discovery, filtering (-k, slow), fixtures and parametrisation, the per-test pipeline inside run_single_test (lex/parse/codegen/cargo) and the extraction of "
+        "failure messages are NOT covered symbolically; the native replay exercises one passing, one failing-assertion and one zero-division test.",
+   ref="DESIGN.md section 0.7, C16"),
  "C17": dict(
    cat="model_checking", tech="enum-level symbolic execution of rustc MIR + SMT (z3/cvc5): the call-site rewrite in AstLowering::lower_expr and the nominal arm of TypeChecker::types_compatible",
    text="Solver-based, TWO mechanisms of the property: (a) the call rewrite (X-lower_ctor): for `Name(args)` with Name a known struct or capitalised, when a validation hook is "
@@ -210,7 +222,7 @@ m = {
  "engines": [
    {"name": "E1 kani", "path": "kani/", "serves_properties": [c for c in ("C01", "C05", "C07", "C11", "C13", "C14", "C19") if c in claimed],
     "kind_free_text": "Kani 0.68 / CBMC 6.11 proof harnesses in an external crate with path dependencies on /repo; counterexamples replayed by replay/ (same harness bodies, native, dev+release)"},
-   {"name": "E2 mirsmt", "path": "mirsmt/", "serves_properties": [c for c in ("C01", "C03", "C04", "C05", "C06", "C07", "C08", "C09", "C11", "C12", "C13", "C14", "C15", "C17") if c in claimed],
+   {"name": "E2 mirsmt", "path": "mirsmt/", "serves_properties": [c for c in ("C01", "C03", "C04", "C05", "C06", "C07", "C08", "C09", "C11", "C12", "C13", "C14", "C15", "C16", "C17") if c in claimed],
     "kind_free_text": "own symbolic executor over rustc's -Zunpretty=mir dump of the working tree, emitting SMT-LIB for cvc5 1.0 / z3 4.8.12"},
  ],
  "checks": [],
@@ -226,7 +238,7 @@ for pid in sorted(CLAIMED):
             "thorough_cmd": f"./check {pid} --tier thorough",
             "evidence_file": f"/verif/evidence/{pid}.json",
             "replay_cmd_template": f"./check {pid} --replay {{path}}",
-            "engine": {"C04": "E2 mirsmt + E1 kani", "C05": "E1 kani + E2 mirsmt", "C06": "E2 mirsmt + E1 kani", "C01": "E2 mirsmt + E1 kani", "C07": "E2 mirsmt + E1 kani", "C13": "E1 kani + E2 mirsmt", "C11": "E1 kani + E2 mirsmt", "C14": "E1 kani + E2 mirsmt", "C17": "E2 mirsmt", "C03": "E2 mirsmt", "C08": "E2 mirsmt", "C09": "E2 mirsmt", "C12": "E2 mirsmt", "C15": "E2 mirsmt"}.get(pid, "E1 kani"),
+            "engine": {"C04": "E2 mirsmt + E1 kani", "C05": "E1 kani + E2 mirsmt", "C06": "E2 mirsmt + E1 kani", "C01": "E2 mirsmt + E1 kani", "C07": "E2 mirsmt + E1 kani", "C13": "E1 kani + E2 mirsmt", "C11": "E1 kani + E2 mirsmt", "C14": "E1 kani + E2 mirsmt", "C17": "E2 mirsmt", "C03": "E2 mirsmt", "C08": "E2 mirsmt", "C09": "E2 mirsmt", "C12": "E2 mirsmt", "C15": "E2 mirsmt", "C16": "E2 mirsmt"}.get(pid, "E1 kani"),
             "level_claimed": {"category": c["cat"], "text": c["text"], "design_ref": c["ref"]},
             "level_note": c["note"],
             "technique": c["tech"],
